@@ -1,6 +1,6 @@
 (* C09 — Lock: mutual exclusion, FIFO hand-off, cancel-safe waiters.
    This file contains only statements closed by `exact` and their Print Assumptions. *)
-From AV Require Import Base Lock LockProofs LockThms LockImp LockGen LockGenEq.
+From AV Require Import Base Lock LockProofs LockThms LockImp LockGen LockGenEq LockThms2.
 
 Theorem C09_mutex : forall fa s, reach fa s ->
   (forall t, In t (held s) -> owner s = Some t) /\ length (held s) <= 1.
@@ -199,3 +199,31 @@ Theorem C09_tie_gen_no_free_with_waiters : forall fa ops,
   let s := final (gstep lock_prog) (init fa) ops in owner s = None -> waiters s = [].
 Proof. exact gen_no_free_with_waiters_run. Qed.
 Print Assumptions C09_tie_gen_no_free_with_waiters.
+
+(* ---- trace-level FIFO (audit): grants follow the arrival order ----
+   When the owner releases, the new owner w is an entry of the arrival log enq, its wait was not cancelled, its
+   wake-up is now set, and EVERY task that started waiting before w is no longer waiting afterwards; those of them
+   that were still queued had a cancelled wait (they are skipped, not overtaken).  If nobody is granted, every
+   queued wait was cancelled. *)
+Theorem C09_grant_in_arrival_order : forall fa s t, reach fa s -> owner s = Some t -> phase_of s t = Idle ->
+  let s' := do_release s t in
+  match owner s' with
+  | Some w =>
+      exists f pre post, enq s = pre ++ (w, f) :: post /\ futs s f <> FCancelled /\ futs s' f = FSet /\
+        (forall x, In x pre -> ~ In x (waiters s')) /\
+        (forall t' f', In (t', f') pre -> In (t', f') (waiters s) -> futs s f' = FCancelled)
+  | None => forall t' f', In (t', f') (waiters s) -> futs s f' = FCancelled
+  end.
+Proof. exact lock_grant_in_arrival_order. Qed.
+Print Assumptions C09_grant_in_arrival_order.
+
+(* the arrival log is duplicate-free: an entry identifies one wait *)
+Theorem C09_arrival_log_unique : forall fa s, reach fa s -> NoDup (map snd (enq s)).
+Proof. exact lock_arrival_log_unique. Qed.
+Print Assumptions C09_arrival_log_unique.
+
+(* ---- no lost hand-off (audit): the recorded owner holds the lock or has its wake-up coming ---- *)
+Theorem C09_owner_is_live : forall fa s t, reach fa s -> owner s = Some t ->
+  In t (held s) \/ phase_of s t = FastYield \/ exists f, phase_of s t = Waiting f /\ futs s f = FSet.
+Proof. exact lock_owner_is_live. Qed.
+Print Assumptions C09_owner_is_live.
